@@ -2,5 +2,6 @@ SPECIFICATION GSpec
 CONSTANTS
   Alphabet = {"cA", "cN", "cJ", "cS", "cH"}
   MaxLen = 8
+  LongCounts = {}
 INVARIANTS Emit GenLemmas
 CHECK_DEADLOCK FALSE
